@@ -1479,7 +1479,7 @@ where
                 });
 
                 for (state, func) in entry.1.iter_mut().zip(&self.aggregates) {
-                    state.update(func, &row);
+                    state.update(func, &row)?;
                 }
             }
 
@@ -2912,7 +2912,7 @@ impl<'a, S: RowSource> Executor<'a> for DynamicExecutor<'a, S> {
                         };
 
                         for (idx, agg_fn) in state.aggregates.iter().enumerate() {
-                            entry.1[idx].update(agg_fn, &row);
+                            entry.1[idx].update(agg_fn, &row)?;
                         }
                     }
 
